@@ -80,7 +80,7 @@ def literal(scanner: Scanner, ctx: dict):
             if ch == Chars.CurlyBracketOpen:
                 ctx['expression'] += 1
             elif ch == Chars.CurlyBracketClose:
-                if ctx['expression'] > expression_start:
+                if ctx['expression'] > 1:
                     ctx['expression'] -= 1
                 else:
                     break
